@@ -244,7 +244,7 @@ def fam_response(ctx, rng):
     from hvsrpy.instrument_response import InstrumentTransferFunction
     L, dt, sc, arrs, alpha = gen_pre(rng)
     flat = bool(rng.random() < 0.5)
-    S = float(10 ** rng.uniform(-2, 6))
+    S = float(10 ** rng.uniform(-2, 6)) * float(rng.choice([1.0, 1.0, -1.0]))     # a reversed-polarity sensor has S < 0
     A0 = float(10 ** rng.uniform(-1, 1)) if rng.random() < 0.5 else 1.0
     if flat:
         poles, zeros = [], []
